@@ -82,7 +82,7 @@ CTX_SOURCE = [
     "        return self",
     "    def __exit__(self, et, ev, tb):",
     "        self.entered -= 1",
-    "        return self.swallow",
+    "        return self.swallow and et is not GeneratorExit",
 ]
 
 
@@ -1262,7 +1262,7 @@ class _Gen:
                 s["msg"] = self.pick(["bad", "x", "must hold"])
             return [s], False
         if k == "ret":
-            if env.kind == "gen":
+            if env.kind in ("gen", "genfin"):
                 return [{"k": "ret", "v": None}], True
             return [{"k": "ret", "v": self.expr(env, env.ret)}], True
         if k == "raise":
@@ -1397,7 +1397,9 @@ class _Gen:
         var = self.fresh("i")
         r = self.i(10)
         vt = "int"
-        if r < 6:
+        if self.gens and self.has("genfunc") and self.chance(20):
+            it, src = self.call_of(env, self.pick(self.gens), 1), "gen"
+        elif r < 6:
             it, src = self.int_iter(env, 2)
         elif r < 8:
             strs = env.of("str")
@@ -1441,7 +1443,10 @@ class _Gen:
         if s["handlers"] and self.chance(30):
             s["else"] = self.block(env.child(), depth + 1, 2)
         if final or not s["handlers"]:
-            s["final"] = self.block(env.child(), depth + 1, 2)
+            f_env = env.child()
+            if f_env.kind == "gen":
+                f_env.kind = "genfin"  # no ``yield`` in a finally block: closing the generator must be able to finish
+            s["final"] = self.block(f_env, depth + 1, 2)
         return s
 
     def with_stmt(self, env: _Env, depth: int) -> dict[str, Any]:
@@ -1594,7 +1599,7 @@ class _Gen:
             name = self.fresh("G")
             model["globals"].append({"name": name, "t": t, "v": self.const(t)})
             self.globals[name] = t
-        if self.has("genfunc") and self.chance(45):
+        if self.has("genfunc") and self.chance(55):
             f = self.func(self.fresh("g"), "gen", 1 + self.i(2), "list")
             model["gens"].append(f)
             self.gens.append(self.sig_of(f))
